@@ -46,6 +46,8 @@ def zero_whole_rows(U, letters, vals, wide_letter, picks):
     w = letters.index(wide_letter)
     outer = list(_it.product(*[range(n) for i, n in enumerate(shape) if i != w]))
     vals = list(vals)
+    if picks and picks[0] % 2 == 0:
+        picks = [0] + list(picks)  # the very first row gone: later items of a middle dimension then show up first
     for p_ in picks:
         combo = list(outer[p_ % len(outer)])
         for k in range(shape[w]):
@@ -143,7 +145,7 @@ def export_cases(draw):
     sparse = draw(st.booleans())
     dtc = None
     if len(letters) >= 2:
-        dtc = draw(st.sampled_from([None] + letters)) if not sparse else draw(st.sampled_from([None, None] + letters))
+        dtc = draw(st.sampled_from([None] + letters)) if not sparse else draw(st.sampled_from([None, None] + letters + letters[-1:] * 2))
         if sparse and dtc is not None:
             x = dict(x, vals=zero_whole_rows(U, letters, x["vals"], dtc, draw(st.lists(st.integers(0, 30), min_size=1, max_size=3))))
         if dtc is not None and draw(st.booleans()):
